@@ -423,7 +423,7 @@ def tla_program(prog: dict) -> dict:
     for s in st:
         for t in s["tasks"]:
             # (verify: a verifier answering RETRY n times = a transient failure without context update)
-            beh[t["name"]] = {"k": {"jump2": "jump", "verify": "transientNoCtx"}.get(t["k"], t["k"]), "n": t["n"], "target": t["target"],
+            beh[t["name"]] = {"k": {"jump2": "jump", "verify": "transientNoCtx", "sleep": "ok", "pollR": "poll"}.get(t["k"], t["k"]), "n": t["n"], "target": t["target"],
                               "targets": t["target"].split(",") if t["target"] else [""]}
             stage_of[t["name"]] = s["ref"]
     return {
